@@ -17,12 +17,15 @@ ASSUME = [
     "nodes over loopback TCP and by calling the real negotiate_connection on both ends of a loopback socket (hook), the comparison being done by negotiate_connection (30 s to get an event, inconclusive runs "
     "are repeated, not judged); the websocket transport has the same comparison but is not compiled into the harness",
     "a dialed peer id in SHA-256 form never equals the id an Ed25519 key proves (inline form), also for the same key: must fail",
-    "small-order ed25519 keys (for which anybody can produce valid signatures) are out of scope",
+    "a small-order Ed25519 identity key has no private key and anybody can forge (R, S) pairs for it: a peer advertising "
+    "one may be accepted under that key's id (never under another id); litep2p and the reference libp2p-noise are run "
+    "on the same forged payloads and both outcomes are recorded (coverage.weak_keys)",
+    "QUIC authenticates with TLS certificates, not Noise: outside C01",
 ]
 
 CHUNKS = {"whole", "byte1", "fields", "random"}
 PVS = {"asR", "noKey", "noSig", "sigByOther", "sigOverOtherStatic", "sigNoPrefix", "stolen", "unknownType", "garbageSig",
-       "extraField", "noncanonKey"}
+       "extraField", "noncanonKey", "weakKey"}
 CONSTS = {"Chunks": CHUNKS, "RoguePayloads": PVS}
 MC_LINES = ["SPECIFICATION Spec", "INVARIANTS Refines Auth NoHang Agreement", "CHECK_DEADLOCK FALSE"]
 GEN_LINES = ["SPECIFICATION Spec", "ACTION_CONSTRAINT Emit", "CHECK_DEADLOCK FALSE"]
@@ -36,7 +39,7 @@ def classify(seg, idx):
         return "noncanonical-identity-key-foreign-peer-id"
     what = sc["pv"] if sc["peer"] == "rogue" else "%s-m%s-%s" % (sc["mitm"]["move"], sc["mitm"]["msg"], sc["mitm"]["field"])
     if sc["dialed"] != "none":
-        what = "dialed-%s-%s" % ("same-key" if sc["dialed"] == "B" else "other-key", sc["dialedForm"])
+        what = "dialed-%s-%s-via-%s" % ("same-key" if sc["dialed"] == "B" else "other-key", sc["dialedForm"], ev.get("conc", {}).get("via", "?"))
     return "%s-%s-%s-%s" % (ev["role"], ev["outcome"], ev["peer"] or "none", what)
 
 
@@ -75,11 +78,21 @@ def check(ctx):
     known = load_known(ctx.pid)
     need = [] if any(v["sig"] not in known for v in violations) else ["ok_pass", "ok_asR", "err_stolen", "err_sigByOther", "err_sigOverOtherStatic", "err_sigNoPrefix", "err_noSig", "err_noKey",
             "err_garbageSig", "err_unknownType", "err_corrupt", "err_substitute", "err_drop", "err_replay", "err_extend",
-            "err_truncadj", "err_truncraw", "ok_tcp_B_inline", "err_tcp_C_inline", "err_tcp_B_sha256", "err_tcp_C_sha256", "ok_tcp_listener",
-            "ok_negotiate_B_inline", "err_negotiate_C_inline", "err_negotiate_B_sha256", "err_negotiate_C_sha256", "ok_negotiate_listener"]
+            "err_truncadj", "err_truncraw"] + ["%s_%s_%s" % (o, via, c) for via in ("tcp", "negotiate", "ws", "wsnegotiate")
+            for o, c in (("ok", "B_inline"), ("err", "C_inline"), ("err", "B_sha256"), ("err", "C_sha256"), ("ok", "listener"))]
     for k in need:
         if not outc.get(k):
             raise ToolError("coverage hole: no real run with outcome class %s" % k)
+    # small-order identity keys: what litep2p and the reference (libp2p-noise) do with the same forged payloads
+    wk = summ.get("weak_keys", {})
+    lit, ref = {}, {}
+    for k in wk:
+        for tag, d in (("_litep2p_", lit), ("_ref_", ref)):
+            if tag in k:
+                d.setdefault(k.split(tag)[0], set()).add(k.split(tag)[1])
+    weak_like_ref = bool(lit) and all(lit.get(k) == ref.get(k) for k in set(lit) | set(ref))
+    if not weak_like_ref:
+        log("NOTE weak keys: litep2p and the reference differ: %s" % {k: (sorted(lit.get(k, [])), sorted(ref.get(k, []))) for k in set(lit) | set(ref) if lit.get(k) != ref.get(k)})
     distinct = len({json.dumps([json.loads(x)["sc"], json.loads(x)["conc"], json.loads(x)["role"]], sort_keys=True) for x in lines})
     cov = {
         "states": mc["distinct"], "transitions": mc["transitions"],
@@ -94,6 +107,8 @@ def check(ctx):
         "scenarios_enumerated": len(behs),
         "model_run": mc, "generation": gstats, "harness": summ,
         "impl_divergences": len(drift),
+        "weak_keys": wk,
+        "weak_key_accepted_like_reference": weak_like_ref,
         "exhaustive": not ctx.quick(),
         "exhaustive_note": "symbolic scenario space complete; thorough tier enumerates every byte offset of every field for single-byte "
                            "corruptions (bit chosen at random); quick samples 8 offsets per field",
